@@ -133,6 +133,18 @@ def build_mesh(D, tags, attach, via_constructor=None):
         kw.update(via_constructor)
         return trimesh.Trimesh(vertices=V.copy(), faces=F.copy(), **kw)
     m = trimesh.Trimesh(vertices=V.copy(), faces=F.copy(), process=False, validate=False, **kw)
+    if vis in ("painted_vertex", "painted_face") and len(F) and len(V):
+        # no colour array is ever assigned: the default colours the visual creates on first access are edited in place
+        # (some rows, or all of them), optionally followed by a read of the visual
+        arr = m.visual.vertex_colors if vis == "painted_vertex" else m.visual.face_colors
+        tag = tags["VC"] if vis == "painted_vertex" else tags["FC"]
+        prs = np.random.RandomState(len(V) * 31 + len(F))
+        sel = np.ones(len(arr), dtype=bool) if prs.rand() < 0.5 else prs.rand(len(arr)) < 0.5
+        sel[int(prs.randint(len(arr)))] = True
+        arr[sel] = tag[sel]
+        m._vf_painted = np.array(arr)
+        if attach.get("paint_read"):
+            _ = m.visual.kind
     if attach["fnorm"]:
         m.face_normals = tags["FN"].copy()
     if attach["vnorm"]:
@@ -150,6 +162,12 @@ def describe(D, tags, attach, mesh=None, scale=1.0):
         vdata["vertex_colors"] = tags["VC"]
     elif vis == "texture":
         vdata["uv"] = tags["UV"]
+    elif vis == "painted_vertex" and mesh is not None and hasattr(mesh, "_vf_painted"):
+        vdata["vertex_colors"] = mesh._vf_painted
+        vis = "vertex"
+    elif vis == "painted_face" and mesh is not None and hasattr(mesh, "_vf_painted"):
+        fdata["face_colors"] = mesh._vf_painted
+        vis = "face"
     if attach["fattr"]:
         fdata["fattr_tag"] = tags["FA_tag"]
         fdata["fattr_vec"] = tags["FA_vec"]
@@ -683,6 +701,12 @@ def _int_mask(op, n, rs):
 FACE_MASKS = ["bool", "bool", "bool_drop_few", "bool_drop_few", "int", "int_unsorted", "int_repeats", "perm", "list"]
 
 
+CARRYING = {
+    "update_faces", "unique_faces", "nondegenerate_faces", "update_vertices", "remove_unreferenced_vertices",
+    "unmerge_vertices", "merge_vertices", "remove_infinite_values", "process", "constructor",
+}  # fmt: skip
+
+
 @body("C07.ops")
 def b_ops(case, ctx):
     op = case["op"]
@@ -698,6 +722,8 @@ def b_ops(case, ctx):
     for k in ("fattr", "vattr", "fnorm", "vnorm", "warm"):
         if attach[k]:
             labels.append("tag:" + k)
+    if attach["visual"].startswith("painted") and name != "constructor":
+        labels.append("paint:" + ("read_before_op" if attach.get("paint_read") or attach["warm"] else "unread"))
     sigp = f"C07.ops|{name}"
 
     if name == "constructor":
@@ -722,6 +748,14 @@ def b_ops(case, ctx):
     finals = [x for x in outs if callable(x)]
     for out, want_src, opt, post in [x for x in outs if not callable(x)]:
         oV, oF, fo, vo, opt.suffix = read_output(out, S, sigp, attach["warm"])
+        if name in CARRYING and len(oF) and len(oV):
+            # these operations mask the mesh in place and document that colours / uv / attributes are kept along
+            # ("keeping track of normals and colors", "apply a mask to remove or duplicate vertex properties"): here a
+            # datum that is gone is a defect, not a documented omission
+            for nm in list(S.fdata) + list(S.vdata):
+                if nm not in ("face_normals", "vertex_normals") and nm not in fo and nm not in vo:
+                    how = "painted in place on the default colours" if attach["visual"].startswith("painted") else "attached"
+                    raise Violation(sigp + f"|{nm}|dropped", f"{nm} ({how}) is no longer there after {name}: visual kind {getattr(out.visual, 'kind', None)}")
         res = track(S, oV, oF, fo, vo, want_src, opt, sigp)
         if post is not None and opt.lenient:
             post(res, oV, oF, fo, vo)
@@ -1431,6 +1465,7 @@ def concat_case(draw):
         a = draw(G.attach_spec())
         if uniform:
             a["visual"] = a0["visual"]
+        a["visual"] = a["visual"].replace("painted_", "")
         shape = draw(st.sampled_from(["normal"] * 6 + ["single", "faceless_ctor", "faceless_masked", "empty"]))
         parts.append({"dirty": d, "attach": a, "shape": shape})
     return {"how": draw(st.sampled_from(["concatenate_list", "concatenate_ab", "add", "sum"])), "parts": parts}
@@ -1520,6 +1555,11 @@ REQUIRED_CLASSES["C07"] = [
     "vmask:int_repeats",
     "mask:bool_drop_few",
     "dirt:dupv_straddle",
+    "dirt:uv_integer_shift",
+    "tag:painted_vertex",
+    "tag:painted_face",
+    "paint:unread",
+    "paint:read_before_op",
     "dirt:nfdup_zero",
     "dirt:nfdup_other",
     "dirt:nfdup_same",
